@@ -474,7 +474,7 @@ static int run_op(const char *op)
     OP("vdelete") { long f = I(1); NEED(SLOT(fid, f, NF) && vstarted[f]); rc = Vdelete(fid[f], (int32)I(2)) != FAIL; }
     OP("vsetattr") { long g = I(1), n = I(4); NEED(SLOT(vg, g, NA) && n > 0 && n < 4096); fill(big, n * 8, I(5)); rc = Vsetattr(vg[g], S_(2), NT(I(3)), (int32)n, big) != FAIL; }
     OP("vgetattr") { long g = I(1); NEED(SLOT(vg, g, NA)); char nm[256]; int32 t, c, sz; if (Vattrinfo(vg[g], (int)I(2), nm, &t, &c, &sz) == FAIL || sz > (int32)sizeof big) rc = 0; else rc = Vgetattr(vg[g], (int)I(2), big) != FAIL; }
-    OP("vinfo") { long g = I(1); NEED(SLOT(vg, g, NA)); char nm[256] = "", cl[256] = ""; int32 n = 0; rc = Vinquire(vg[g], &n, nm) != FAIL; Vgetclass(vg[g], cl); int32 tg[64], rf[64]; Vgettagrefs(vg[g], tg, rf, 64); sprintf(extra, " n=%ld nattr=%ld ref=%ld", (long)n, (long)Vnattrs(vg[g]), (long)VQueryref(vg[g])); }
+    OP("vinfo") { long g = I(1); NEED(SLOT(vg, g, NA)); char nm[256] = "", cl[256] = ""; int32 n = 0; rc = Vinquire(vg[g], &n, nm) != FAIL; Vgetclass(vg[g], cl); int32 tg[64], rf[64]; int32 k_ = Vgettagrefs(vg[g], tg, rf, 64); uint32_t mh = 0; for (int32 q = 0; q < k_ && q < 64; q++) mh = mh * 31 + (uint32_t)tg[q] * 65599u + (uint32_t)rf[q]; sprintf(extra, " n=%ld nattr=%ld ref=%ld name=%.40s class=%.40s members=%08x", (long)n, (long)Vnattrs(vg[g]), (long)VQueryref(vg[g]), nm, cl, mh); }
     OP("vgetid") { long f = I(1); NEED(SLOT(fid, f, NF) && vstarted[f]); int32 r = Vgetid(fid[f], (int32)I(2)); rc = r != FAIL; sprintf(extra, " ref=%ld", (long)r); }
     OP("vfind") { long f = I(1); NEED(SLOT(fid, f, NF) && vstarted[f]); int32 r = Vfind(fid[f], S_(2)); rc = r != 0; sprintf(extra, " ref=%ld", (long)r); }
     OP("vlone") { long f = I(1); NEED(SLOT(fid, f, NF) && vstarted[f]); int32 r[64]; int32 n = Vlone(fid[f], r, 64); rc = n != FAIL; sprintf(extra, " n=%ld", (long)n); }
@@ -484,7 +484,10 @@ static int run_op(const char *op)
     OP("vsdeleten") { long f = I(1); NEED(SLOT(fid, f, NF) && vstarted[f]); int32 r = VSfind(fid[f], S_(2)); NEED(r > 0); rc = VSdelete(fid[f], r) != FAIL; sprintf(extra, " ref=%ld", (long)r); }
     OP("vsdetach") { long s = I(1); NEED(SLOT(vs, s, NA)); rc = VSdetach(vs[s]) != FAIL; vs[s] = FAIL; }
     OP("vsfdefine") { long s = I(1); NEED(SLOT(vs, s, NA)); rc = VSfdefine(vs[s], S_(2), NT(I(3)), (int32)I(4)) != FAIL; }
-    OP("vssetfields") { long s = I(1); NEED(SLOT(vs, s, NA)); rc = VSsetfields(vs[s], S_(2)) != FAIL; }
+    /* VSsetfields has two roles: on a vdata that has fields it SELECTS fields (read / write lists); on a vdata without
+       fields and records it DEFINES the record layout (a creation).  The harness tells them apart by the object's state */
+    OP("vssetfields") { long s = I(1); NEED(SLOT(vs, s, NA)); NEED(VFnfields(vs[s]) > 0 || VSelts(vs[s]) > 0); rc = VSsetfields(vs[s], S_(2)) != FAIL; }
+    OP("vsdefinefields") { long s = I(1); NEED(SLOT(vs, s, NA)); NEED(VFnfields(vs[s]) <= 0 && VSelts(vs[s]) <= 0); rc = VSsetfields(vs[s], S_(2)) != FAIL; }
     OP("vswrite") { long s = I(1), n = I(2); NEED(SLOT(vs, s, NA) && n > 0 && n < 2000); fill(big, n * 256, I(3)); rc = VSwrite(vs[s], big, (int32)n, FULL_INTERLACE) != FAIL; }
     OP("vsread") { long s = I(1), n = I(2); NEED(SLOT(vs, s, NA) && n > 0 && n < 2000); int32 r = VSread(vs[s], big, (int32)n, FULL_INTERLACE); rc = r != FAIL; sprintf(extra, " n=%ld", (long)r); }
     OP("vsseek") { long s = I(1); NEED(SLOT(vs, s, NA)); rc = VSseek(vs[s], (int32)I(2)) != FAIL; }
@@ -493,7 +496,7 @@ static int run_op(const char *op)
     OP("vssetattr") { long s = I(1), n = I(5); NEED(SLOT(vs, s, NA) && n > 0 && n < 4096); fill(big, n * 8, I(6)); rc = VSsetattr(vs[s], (int32)I(2), S_(3), NT(I(4)), (int32)n, big) != FAIL; }
     OP("vsgetattr") { long s = I(1); NEED(SLOT(vs, s, NA)); char nm[256]; int32 t, c, sz; if (VSattrinfo(vs[s], (int32)I(2), (int)I(3), nm, &t, &c, &sz) == FAIL || sz > (int32)sizeof big) rc = 0; else rc = VSgetattr(vs[s], (int32)I(2), (int)I(3), big) != FAIL; }
     OP("vsdelete") { long f = I(1); NEED(SLOT(fid, f, NF) && vstarted[f]); rc = VSdelete(fid[f], (int32)I(2)) != FAIL; }
-    OP("vsinfo") { long s = I(1); NEED(SLOT(vs, s, NA)); int32 n = 0, il = 0, sz = 0; char fl[2048] = "", nm[256] = ""; rc = VSinquire(vs[s], &n, &il, fl, &sz, nm) != FAIL; sprintf(extra, " n=%ld sz=%ld nattr=%ld elts=%ld ref=%ld", (long)n, (long)sz, (long)VSnattrs(vs[s]), (long)VSelts(vs[s]), (long)VSQueryref(vs[s])); }
+    OP("vsinfo") { long s = I(1); NEED(SLOT(vs, s, NA)); int32 n = 0, il = 0, sz = 0; char fl[2048] = "", nm[256] = ""; rc = VSinquire(vs[s], &n, &il, fl, &sz, nm) != FAIL; char cl[256] = ""; VSgetclass(vs[s], cl); sprintf(extra, " n=%ld sz=%ld nattr=%ld elts=%ld ref=%ld nf=%ld il=%ld name=%.40s class=%.40s fields=%.200s", (long)n, (long)sz, (long)VSnattrs(vs[s]), (long)VSelts(vs[s]), (long)VSQueryref(vs[s]), (long)VFnfields(vs[s]), (long)il, nm, cl, fl); }
     OP("vsfind") { long f = I(1); NEED(SLOT(fid, f, NF) && vstarted[f]); int32 r = VSfind(fid[f], S_(2)); rc = r != 0; sprintf(extra, " ref=%ld", (long)r); }
     OP("vsgetid") { long f = I(1); NEED(SLOT(fid, f, NF) && vstarted[f]); int32 r = VSgetid(fid[f], (int32)I(2)); rc = r != FAIL; sprintf(extra, " ref=%ld", (long)r); }
     OP("vslone") { long f = I(1); NEED(SLOT(fid, f, NF) && vstarted[f]); int32 r[64]; int32 n = VSlone(fid[f], r, 64); rc = n != FAIL; sprintf(extra, " n=%ld", (long)n); }
@@ -580,8 +583,13 @@ static int run_op(const char *op)
         rc = SDgetinfo(sds[d], nm, &rank, dims, &nt, &na) != FAIL;
         comp_coder_t ct = 0; comp_info ci; HDF_CHUNK_DEF c; int32 fl = 0; double a, b, c2, e; int32 t2;
         SDgetcompinfo(sds[d], &ct, &ci); SDgetchunkinfo(sds[d], &c, &fl); SDgetfillvalue(sds[d], big); SDgetrange(sds[d], big, big + 8); SDgetcal(sds[d], &a, &b, &c2, &e, &t2);
-        char l[64], u[64], f[64], cs[64]; SDgetdatastrs(sds[d], l, u, f, cs, 64);
-        sprintf(extra, " rank=%ld nt=%ld na=%ld coord=%d ref=%ld rec=%d chunk=%ld", (long)rank, (long)nt, (long)na, (int)SDiscoordvar(sds[d]), (long)SDidtoref(sds[d]), (int)SDisrecord(sds[d]), (long)fl);
+        char l[64] = "", u[64] = "", f[64] = "", cs[64] = ""; SDgetdatastrs(sds[d], l, u, f, cs, 64);
+        char *q_ = extra + sprintf(extra, " name=%.40s rank=%ld nt=%ld na=%ld coord=%d ref=%ld rec=%d chunk=%ld lab=%.20s", nm, (long)rank, (long)nt, (long)na, (int)SDiscoordvar(sds[d]), (long)SDidtoref(sds[d]), (int)SDisrecord(sds[d]), (long)fl, l);
+        for (int k = 0; rc && k < rank && k < 4; k++) {
+            int32 di = SDgetdimid(sds[d], k); char dn[256] = ""; int32 dsz = 0, dt = 0, dna = 0;
+            if (di != FAIL) SDdiminfo(di, dn, &dsz, &dt, &dna);
+            q_ += sprintf(q_, " d%d=%ld:%.30s:%ld:%ld:%ld", k, (long)dims[k], dn, (long)dsz, (long)dt, (long)dna);
+        }
     }
     OP("sdfileinfo") { long i = I(1); NEED(SLOT(sd, i, 2)); int32 n = 0, a = 0; rc = SDfileinfo(sd[i], &n, &a) != FAIL; sprintf(extra, " nds=%ld nat=%ld", (long)n, (long)a); }
     OP("sdnametoindex") { long i = I(1); NEED(SLOT(sd, i, 2)); int32 x = SDnametoindex(sd[i], S_(2)); rc = x != FAIL; sprintf(extra, " idx=%ld", (long)x); }
@@ -604,7 +612,7 @@ static int run_op(const char *op)
     OP("grsetaccesstype") { long r = I(1); NEED(SLOT(ri, r, NA)); rc = GRsetaccesstype(ri[r], DFACC_SERIAL) != FAIL; }
     OP("grsetchunkcache") { long r = I(1); NEED(SLOT(ri, r, NA)); rc = GRsetchunkcache(ri[r], (int32)I(2), 0) != FAIL; }
     OP("grreqimageil") { long r = I(1); NEED(SLOT(ri, r, NA)); rc = GRreqimageil(ri[r], (int)I(2)) != FAIL; }
-    OP("grinfo") { long r = I(1); NEED(SLOT(ri, r, NA)); char nm[256] = ""; int32 nc = 0, nt = 0, il = 0, dm[2] = {0, 0}, na = 0; rc = GRgetiminfo(ri[r], nm, &nc, &nt, &il, dm, &na) != FAIL; sprintf(extra, " nc=%ld nt=%ld %ldx%ld na=%ld ref=%u", (long)nc, (long)nt, (long)dm[0], (long)dm[1], (long)na, (unsigned)GRidtoref(ri[r])); }
+    OP("grinfo") { long r = I(1); NEED(SLOT(ri, r, NA)); char nm[256] = ""; int32 nc = 0, nt = 0, il = 0, dm[2] = {0, 0}, na = 0; rc = GRgetiminfo(ri[r], nm, &nc, &nt, &il, dm, &na) != FAIL; sprintf(extra, " nc=%ld nt=%ld %ldx%ld na=%ld ref=%u name=%.40s", (long)nc, (long)nt, (long)dm[0], (long)dm[1], (long)na, (unsigned)GRidtoref(ri[r]), nm); }
     OP("grfileinfo") { long g = I(1); NEED(SLOT(gr, g, 2)); int32 n = 0, a = 0; rc = GRfileinfo(gr[g], &n, &a) != FAIL; sprintf(extra, " n=%ld na=%ld", (long)n, (long)a); }
     OP("grnametoindex") { long g = I(1); NEED(SLOT(gr, g, 2)); rc = GRnametoindex(gr[g], S_(2)) != FAIL; }
     /* ---------------- AN ---------------- */
